@@ -16,6 +16,18 @@ pub const MEM_TP_DIR: &str = "/vw/venv/lib/python3.11/site-packages";
 /// 0..=3 is the chain root > a > b > c, 4..=6 are siblings hanging off chain levels 0,1,2.
 pub const DIRS: [&str; 7] = ["", "a", "a/b", "a/b/c", "x", "a/y", "a/b/z"];
 
+/// module name of helper file number `n`. Number 4 is deliberately named like a standard-library
+/// module (a project-local `email.py` next to a conftest is ordinary): such a module is only ever
+/// imported relatively (`from .email import ...`), where Python resolves it to the local file.
+pub const STDLIB_NAMED_HELPER: u8 = 4;
+pub fn helper_mod(n: u8) -> String {
+    if n == STDLIB_NAMED_HELPER {
+        "email".to_string()
+    } else {
+        format!("fx{}", n)
+    }
+}
+
 pub fn dir_parent(d: usize) -> Option<usize> {
     match d {
         0 => None,
@@ -58,7 +70,7 @@ impl FileLoc {
         match &self.kind {
             FileKind::Conftest => format!("{}/conftest.py", base),
             FileKind::Test(n) => format!("{}/test_m{}.py", base, n),
-            FileKind::Helper(n) => format!("{}/fx{}.py", base, n),
+            FileKind::Helper(n) => format!("{}/{}.py", base, helper_mod(*n)),
             FileKind::Plugin(n) => format!("{}/plug{}.py", plugin_dir, n),
             FileKind::ThirdParty(n) => format!("{}/tp{}/plugin.py", tp_dir, n),
         }
@@ -69,7 +81,7 @@ impl FileLoc {
         match &self.kind {
             FileKind::Conftest => format!("{}conftest.py", pre),
             FileKind::Test(n) => format!("{}test_m{}.py", pre, n),
-            FileKind::Helper(n) => format!("{}fx{}.py", pre, n),
+            FileKind::Helper(n) => format!("{}{}.py", pre, helper_mod(*n)),
             FileKind::Plugin(n) => format!("<plugins>/plug{}.py", n),
             FileKind::ThirdParty(n) => format!("<site-packages>/tp{}/plugin.py", n),
         }
